@@ -728,3 +728,60 @@ Section Pass.
     cbn [step c_mode c_frames c_st]. eexists. reflexivity.
   Qed.
 End Pass.
+
+(* ------------------------------------------------------------------ the theorems, from the initial state *)
+Theorem first_pass_terminates_tree P p :
+  pointwise P -> tree p ->
+  let h := fst (create [] (FTask p) (st0 P)) in
+  let s1 := snd (create [] (FTask p) (st0 P)) in
+  (forall n, no_unwind P n (start h s1)) ->
+  exists n, c_mode (run P n (start h s1)) = MAfterExec /\ tasks (c_st (run P n (start h s1))) = [].
+Proof. intros HP Ht. cbn zeta. intros Hnu. exact (first_pass_ends P HP p Ht Hnu). Qed.
+
+Theorem terminates_without_flush_tree P p :
+  pointwise P -> tree p ->
+  let h := fst (create [] (FTask p) (st0 P)) in
+  let s1 := snd (create [] (FTask p) (st0 P)) in
+  (forall n, no_unwind P n (start h s1)) ->
+  (forall n, c_mode (run P n (start h s1)) = MAfterExec -> computed h (c_st (run P n (start h s1))) = true) ->
+  exists n o, c_mode (run P n (start h s1)) = MDone o /\ o = eval p.
+Proof.
+  intros HP Ht. cbn zeta. intros Hnu Hnf.
+  destruct (terminates_without_flush P HP p Ht Hnu Hnf) as (n & o & Hm).
+  exists n, o. split; [exact Hm|]. exact (async_eq_seq_tree P p n o HP Ht (Hnu n) Hm).
+Qed.
+
+(* non-vacuity.  (1) c01_demo (two batch kinds, a nested task): the first pass ends after 17 steps with the
+   root uncomputed (flushes are needed); the computation is done within 41 steps.  (2) a program with nested
+   tasks, a lazy future and constants but no batch item: no pass ends with the root uncomputed, and the
+   computation is done within 36 steps. *)
+Definition c03t_demo : prog :=
+  Yield (YTuple [YLeaf (LNew (FTask (Yield (YLeaf (LNew (FLazy (Ok (VInt 7)))))
+                                           (fun o => match o with Ok v => Ret (VTuple [v; VInt 1]) | Err e => Raise e end))));
+                 YLeaf (LNew (FConst (VInt 9)));
+                 YLeaf (LNew (FTask (Yield YNone (fun _ => Ret (VInt 3)))))])
+        (fun o => match o with Ok v => Ret v | Err e => Raise e end).
+
+Lemma c03t_demo_tree : tree c03t_demo.
+Proof.
+  unfold c03t_demo. apply tree_yield.
+  - intros l Hl. cbn in Hl. destruct Hl as [<-|[<-|[<-|[]]]]; constructor; try constructor.
+    + apply tree_yield; [intros l [<-|[]]; repeat constructor|]. intros [v|e]; constructor.
+    + apply tree_yield; [intros l []|]. intros o; constructor.
+  - intros [v|e]; constructor.
+Qed.
+
+Example c03t_demo_runs :
+  let P := mkP [] 1000 false [] in
+  (let h := fst (create [] (FTask c01_demo) (st0 P)) in
+   let s1 := snd (create [] (FTask c01_demo) (st0 P)) in
+   c_mode (run P 17 (start h s1)) = MAfterExec /\ computed h (c_st (run P 17 (start h s1))) = false /\
+   c_mode (run P 41 (start h s1)) = MDone (eval c01_demo)) /\
+  (let h := fst (create [] (FTask c03t_demo) (st0 P)) in
+   let s1 := snd (create [] (FTask c03t_demo) (st0 P)) in
+   no_unwind_b P 100 (start h s1) = true /\
+   forallb (fun n => match c_mode (run P n (start h s1)) with
+                     | MAfterExec => computed h (c_st (run P n (start h s1))) | _ => true end) (seq 0 100) = true /\
+   c_mode (run P 36 (start h s1)) = MDone (Ok (VTuple [VTuple [VInt 7; VInt 1]; VInt 9; VInt 3])) /\
+   eval c03t_demo = Ok (VTuple [VTuple [VInt 7; VInt 1]; VInt 9; VInt 3])).
+Proof. vm_compute. repeat split. Qed.
